@@ -221,7 +221,9 @@ int
 loadintfd(int fd, unsigned long *result, const unsigned long def)
 {
 	char *tmpbuf, *l;
-	const size_t i = lloadfilefd(fd, &tmpbuf, 2);
+	/* compact the buffer: comments and empty lines are dropped, so the number
+	 * is at the beginning and a second line can be detected */
+	const size_t i = lloadfilefd(fd, &tmpbuf, 3);
 
 	if (i == (size_t) -1)
 		return -1;
@@ -231,13 +233,24 @@ loadintfd(int fd, unsigned long *result, const unsigned long def)
 		return 0;
 	}
 
-	*result = strtoul(tmpbuf, &l, 10);
-	if (*l) {
+	/* Only a single line that consists entirely of digits is a number. strtoul()
+	 * alone would also accept leading whitespace and signs ("-5" becoming a huge
+	 * value), and silently saturate on overflow. */
+	if ((strlen(tmpbuf) + 1 != i) || (*tmpbuf < '0') || (*tmpbuf > '9')) {
 		errno = EINVAL;
 		free(tmpbuf);
 		return -1;
 	}
 
+	errno = 0;
+	const unsigned long v = strtoul(tmpbuf, &l, 10);
+	if (*l || (errno == ERANGE)) {
+		errno = EINVAL;
+		free(tmpbuf);
+		return -1;
+	}
+
+	*result = v;
 	free(tmpbuf);
 
 	return 0;
